@@ -441,7 +441,11 @@ def viol_context(path, c, ln, vrid=None, prop=None):
             accreq[g[1]] = g[3]
         elif g[0] == "MQRESP" and len(g) > 2 and g[1] in accreq:
             # latest access answer for this connection and resource: did it grant get?
-            getgranted[accreq.pop(g[1])] = (g[2] == "access" and len(g) > 3 and g[3] == "1")
+            # (after a malformed access answer the trace cannot tell a refusal from a grant - the gateway reads some of
+            # them as get:false, others as an internal error, and the monitor then cannot classify the error entry:
+            # such histories keep the wide attribution)
+            getgranted[accreq.pop(g[1])] = ((g[2] == "access" and len(g) > 3 and g[3] == "1")
+                                            or (g[2] == "err" and len(g) > 3 and g[3] == "malformed"))
         if g[0] == "MQREQ" and len(g) > 5 and g[2] in ("call", "auth"):
             mqconn[g[1]] = g[5]
         elif g[0] == "MQRESP" and len(g) > 3 and g[2] == "resource" and mqconn.get(g[1]) == c:
